@@ -8,8 +8,8 @@ usage: mutants.py [Cnn ...] [-k substring]
 import os, shutil, subprocess, sys, tempfile, json, time
 
 M = []
-def mut(prop, name, file, old, new, count=1):
-    M.append(dict(prop=prop, name=name, file=file, old=old, new=new, count=count))
+def mut(prop, name, file, old, new, count=1, env=None):
+    M.append(dict(prop=prop, name=name, file=file, old=old, new=new, count=count, env=env or {}))
 
 # ---- C04
 mut("C04", "no-truncate", "pkg/hack/hajack_clienthello_conn.go",
@@ -594,6 +594,13 @@ mut("C08", "undo-D14", "fingerproxy.go",
 mut("C08", "undo-D21", "pkg/reverseproxy/handler.go",
     "	_ = http.NewResponseController(w).EnableFullDuplex()\n", "")
 
+# the watchdog path of C08 (stalled exchange, repeated alone): a stream WINDOW_UPDATE is dropped when the
+# stream's send window is exhausted, i.e. exactly when the response writer waits for it
+mut("C08", "h2-stream-window-update-dropped-when-window-exhausted", "pkg/http2/server.go",
+    "		if !st.flow.add(int32(f.Increment)) {\n			return sc.countError(\"bad_flow\", streamError(f.StreamID, ErrCodeFlowControl))",
+    "		if st.flow.n == 0 {\n			return nil\n		}\n		if !st.flow.add(int32(f.Increment)) {\n			return sc.countError(\"bad_flow\", streamError(f.StreamID, ErrCodeFlowControl))",
+    env={"VERIF_C08_WATCHDOG": "8s"})
+
 def run(argv):
     props = [a for a in argv if a.startswith("C")]
     sub = None
@@ -626,7 +633,7 @@ def run(argv):
             if b.returncode != 0:
                 results.append((m, "DOES-NOT-COMPILE", 0)); print(m["prop"], m["name"], "DOES-NOT-COMPILE", b.stderr[-300:]); continue
             t0 = time.time()
-            e2 = dict(env, VERIF_REPO=dst, VERIF_NO_EVIDENCE="1")
+            e2 = dict(env, VERIF_REPO=dst, VERIF_NO_EVIDENCE="1", **m["env"])
             r = subprocess.run(["./check", m["prop"], "quick"], cwd="/verif", env=e2, capture_output=True, text=True)
             caught = "VIOLATION property=" + m["prop"] in r.stdout
             first = next((l for l in r.stdout.splitlines() if "detail[" in l), "")[:200]
